@@ -10,6 +10,13 @@ ASSUMPTIONS = ["lstat values recorded by the driver are the entry's real attribu
                "rows are identified by the path text './'+relative path (root '.' and cwd = world top)"]
 
 
+def mech(tier, seed):
+    # Mech => Prop for the whole WHERE path: Lexer + Parser + Conforms (the evaluator and its literal conversions) compute, for every
+    # formula over the atom tables and every entry of W3, the truth value Eval!EvalP gives - wherever both are defined
+    return [dict(module="MC_ConformsMech", cfg="MC_ConformsMech_q" if tier == "quick" else "MC_ConformsMech_t",
+                 workers=8 if tier == "quick" else 12, actions=[], coverage=False)]
+
+
 def generators(tier, seed):
     # the fixed world W2x with the hand-picked literals, then pseudo-random trees (WorldRnd) with literals drawn from each tree's own
     # attribute values and their neighbours (quick: 2 trees, thorough: 24)
